@@ -10,6 +10,7 @@ import (
 
 	"verifharness/cli"
 	"verifharness/evidence"
+	"verifharness/props/c11"
 	"verifharness/props/idw"
 	"verifharness/props/syncrun"
 	"verifharness/props/syncw"
@@ -18,7 +19,7 @@ import (
 
 func main() {
 	cli.Main(map[string]func([]string){"C02": run},
-		map[string]xstate.Factory{"syncw": syncw.New, "idw": idw.New})
+		map[string]xstate.Factory{"syncw": syncw.New, "idw": idw.New, "c11w": c11.New})
 }
 
 // run = the sync-world exploration of bug pulls (syncrun) plus the identity world: the statement
@@ -60,7 +61,7 @@ func run(args []string) {
 		n := xstate.Reproductions("idw", p.String(), fd, 5)
 		rep.Report(evidence.Report{Oracle: strings.Replace(fd.Oracle, "c09.", "c02.identity.", 1), Sig: fd.Sig,
 			Detail: fmt.Sprintf("[identity pulls] after %v: %s (reproduced %d/5)", fd.Path, fd.Detail, n),
-			Replay: map[string]any{"model": "idw", "params": p, "path": fd.Path, "reproduced_of_5": n}, Count: res.SigCount[fd.Oracle+"|"+fd.Sig]})
+			Replay: map[string]any{"model": "idw", "params": p, "path": fd.Path, "reproduced_of_5": n, "model_oracle": fd.Oracle}, Count: res.SigCount[fd.Oracle+"|"+fd.Sig]})
 	}
 	cov["states"] = cov["states"].(int) + res.States
 	cov["transitions"] = cov["transitions"].(int) + res.Transitions
@@ -71,8 +72,49 @@ func run(args []string) {
 	for _, s := range res.Samples {
 		cov["samples"] = append(cov["samples"].([]any), map[string]any{"configuration": "identity pulls", "path": s})
 	}
+	// pulls through the cache: "the cache replaces its cached entity and excerpt by the merged one".
+	// The cache world of C11 with the actions that matter here: A keeps an operation pending on a
+	// loaded bug (stage), B comments and pushes, A pulls; after every pull that changed something one
+	// more edit is committed through the live cache and the git data must hold the operations of both
+	// sides and the new one. Only the pull oracles of that world are taken over.
+	cdepth, cbudget := 5, 75*time.Second
+	if tier == "thorough" {
+		cdepth, cbudget = 7, 10*time.Minute
+	}
+	if *depthOverride > 0 {
+		cdepth = *depthOverride
+	}
+	cp := c11.Params{Seed: seed, Kinds: "stage,comment,pull", KindsB: "comment,push"}
+	fmt.Fprintf(os.Stderr, "== C02: pulls through the cache with an operation pending (depth %d)\n", cdepth)
+	cres := xstate.Run(xstate.Config{Property: "C02", Model: "c11w", Params: cp.String(), MaxDepth: cdepth,
+		Deadline: time.Now().Add(cbudget), CrashIsViolation: true, Log: os.Stderr})
+	for _, e := range cres.HarnessErrors {
+		fmt.Fprintln(os.Stderr, "harness error:", e)
+		harnessErr = true
+	}
+	sort.Slice(cres.Found, func(i, j int) bool { return len(cres.Found[i].Path) < len(cres.Found[j].Path) })
+	for _, fd := range cres.Found {
+		if fd.Oracle != "c11.builds-on-merge" && fd.Oracle != "crash" && !strings.HasPrefix(fd.Sig, "hang-or-panic/") {
+			continue // what the cache serves between pulls is C11's subject
+		}
+		n := xstate.Reproductions("c11w", cp.String(), fd, 5)
+		rep.Report(evidence.Report{Oracle: strings.Replace(fd.Oracle, "c11.", "c02.cache.", 1), Sig: fd.Sig,
+			Detail: fmt.Sprintf("[pulls through the cache] after %v: %s (reproduced %d/5)", fd.Path, fd.Detail, n),
+			Replay: map[string]any{"model": "c11w", "params": cp, "path": fd.Path, "reproduced_of_5": n, "model_oracle": fd.Oracle}, Count: cres.SigCount[fd.Oracle+"|"+fd.Sig]})
+	}
+	cov["states"] = cov["states"].(int) + cres.States
+	cov["transitions"] = cov["transitions"].(int) + cres.Transitions
+	cov["traces_validated_against_impl"] = cov["transitions"]
+	cov["exhaustive"] = cov["exhaustive"].(bool) && cres.Exhaustive
+	cov["runs"] = append(cov["runs"].([]map[string]any), map[string]any{"configuration": "pulls through the cache with an operation pending (cache world of C11: A stage/comment/pull, B comment/push)",
+		"params": cp, "max_depth": cdepth, "completed_depth": cres.CompletedDepth, "states": cres.States, "transitions": cres.Transitions, "new_states_per_depth": cres.PerDepth,
+		"probes_after_pull": cres.Tags["probe-edit-after-pull"]})
+	for _, s := range cres.Samples {
+		cov["samples"] = append(cov["samples"].([]any), map[string]any{"configuration": "pulls through the cache", "path": s})
+	}
 	ev := evidence.Evidence{PropertyID: "C02", Tier: tier, Seed: int(seed), Level: "model_checking", Coverage: cov,
-		Assumptions: append(append([]string{}, syncrun.Assumptions...), "identity pulls are explored in their own world (props/idw, shared with C09)"),
+		Assumptions: append(append([]string{}, syncrun.Assumptions...), "identity pulls are explored in their own world (props/idw, shared with C09)",
+			"pulls through cache.RepoCache are explored in the cache world of C11 restricted to stage/comment/push/pull; only its after-pull oracles count here"),
 		WallS: time.Since(start).Seconds(), Violations: rep.Viol, Known: rep.KnownSeen()}
 	if err := ev.Write(); err != nil {
 		fmt.Fprintln(os.Stderr, "harness error: cannot write evidence:", err)
